@@ -226,6 +226,11 @@ func (un *universe) composites() []cadence.Value {
 		arr(cadence.NewVariableSizedArrayType(un.inter[6]), p.NewR(9, s)),
 		arr(cadence.NewVariableSizedArrayType(cadence.NewOptionalType(un.inter[3])), cadence.NewOptional(s), cadence.NewOptional(nil)),
 		dict(p.En, un.inter[5], p.NewEn(2), s, p.NewEn(1), s),
+		// reference-typed containers: the exported elements are the referenced values
+		arr(cadence.NewVariableSizedArrayType(cadence.NewReferenceType(un.auths[0], cadence.IntType)), cadence.NewInt(1), cadence.NewInt(2)),
+		arr(cadence.NewVariableSizedArrayType(cadence.NewReferenceType(un.auths[5], p.S)), s),
+		arr(cadence.NewVariableSizedArrayType(cadence.NewOptionalType(cadence.NewReferenceType(un.auths[0], p.S))), cadence.NewOptional(s), cadence.NewOptional(nil)),
+		arr(cadence.NewVariableSizedArrayType(cadence.NewReferenceType(un.auths[0], cadence.AnyStructType)), s, cadence.NewInt(3)),
 	}
 	return out
 }
